@@ -466,6 +466,14 @@ Theorem C06_limit_unobservable_below_file : forall lim fx ig ov h s,
 Proof. exact file_limit_unobservable. Qed.
 Print Assumptions C06_limit_unobservable_below_file.
 
+(* the conditions of [over_limit] are the guards in the Go source, regenerated on every run *)
+Theorem C06_limit_guards_from_source :
+  limited_Push_guards = [(b "fmt.Errorf"%string, [b "expected.Size > ls.PushLimit"%string]);
+                         (b "ls.Storage.Push"%string, [])] /\
+  file_push_guards = [(b "s.fallbackStorage.Push"%string, [b "name == ''"%string])].
+Proof. exact limit_guards_from_source. Qed.
+Print Assumptions C06_limit_guards_from_source.
+
 Example C06_ex_file_limit :
   snd (runl (file_step_lim 10 true false false) file_init
             [Push (mkDesc 1 9 20 0) (mkBlob 9 20 [(6, 1, 5)] 9 [(6, 1, 5)]); Push w_unnamed w_good;
